@@ -188,7 +188,8 @@ Definition s_level (t : ity) (m : mapping) (pat : pattern) (h : Z) (sls : list s
        TZ (span_impl t m');
        TZ (Ok h');
        TL (rmap (map (fun o => h' + o)) (seq_res (map (offset_impl t m') pts)));
-       TL (rmap (map (fun o => h + o)) (seq_res (map (fun j => offset_impl t m (compose sls j)) pts))) ],
+       TL (rmap (map (fun o => h + o)) (seq_res (map (fun j => offset_impl t m (compose sls j)) pts)));
+       TZ (Ok 0) ],          (* accessor of the result: the source accessor's offset_policy *)
      Some (m', pat', h'))
   end.
 
